@@ -47,8 +47,8 @@ scalar transformer family that is lawful on ℝ with the one-dimensional layer f
 coordinates is needed.
 
 PARTIAL with respect to the informal property: PRNG statistics and rounding are outside; for the rational-quadratic-spline
-transformer inside Coupling / MAF in d > 1 the joint measurability of (parameters, point) ↦ spline value is a hypothesis
-(`NetMass.CouplingMeas` / `MafMeas`), every other hypothesis is discharged (`spline_family_facts`); where the library inverts
+transformer inside Coupling / MAF the joint measurability is PROVED in section `SplineMeas` (no measurability hypothesis left);
+`triangular_spline_flow` has no dedicated d-dimensional theorem; where the library inverts
 numerically (BNAF) or not at all (Planar tanh) the sampler law is stated for the exact inverse; Planar's `w = 0` is excluded (the
 code returns NaN there).
 -/
